@@ -106,6 +106,9 @@ def case_strategy(draw):
         k = draw(st.integers(0, 9))
         if k == 0:
             ops.append(("flush",))
+        elif k == 2 and draw(st.integers(0, 2)) == 0:
+            # the session ends and a later one continues on the same database (tables and columns exist already)
+            ops.append(("reopen",))
         elif k == 1 and draw(st.booleans()):
             # a record flow.record accepts but sqlite3 cannot bind (lone surrogate, integer beyond 64 bits): its
             # write() raises, the producer carries on
@@ -169,6 +172,7 @@ def run_history(case, batch, path, ctx, observe_steps):
     seen = set()
     commit_points = {0}
     mandatory = 0
+    session_start = 0
     base = "sqlite"
     try:
         for step, op in enumerate(case["ops"]):
@@ -186,7 +190,7 @@ def run_history(case, batch, path, ctx, observe_steps):
                 if not res.ok:
                     raise Violation(base + "/write-raised", "step %d: write of %r raised %r" % (step, rec, res), detail=res.type)
                 written.append((vi, rec))
-                if len(written) % batch == 0:
+                if (len(written) - session_start) % batch == 0:
                     commit_points.add(len(written))
                     mandatory = len(written)
             elif op[0] == "refuse":
@@ -205,6 +209,17 @@ def run_history(case, batch, path, ctx, observe_steps):
                 if res.ok:
                     raise RuntimeError("harness: sqlite accepted the unbindable value %r" % (vals[pos],))
                 ctx.cls("write-raised-and-producer-continued")
+            elif op[0] == "reopen":
+                res = impl(w.close)
+                if not res.ok:
+                    raise Violation(base + "/close-raised", "%r" % (res,))
+                commit_points.add(len(written))
+                mandatory = len(written)
+                w = SqliteWriter(path, batch_size=batch)
+                seen = set()
+                # the writer counts its own records: batches of the new session start at its first record
+                session_start = len(written)
+                ctx.cls("second-session-on-the-same-database")
             elif op[0] == "flush":
                 res = impl(w.flush)
                 if not res.ok:
@@ -371,5 +386,63 @@ def check(case, ctx):
         shutil.rmtree(tmp, ignore_errors=True)
 
 
+def float_cases(tier):
+    return [{"block": b, "batch": bs} for b in range(8 if tier != "thorough" else 64) for bs in (1, 1000)][: (8 if tier != "thorough" else 128)]
+
+
+def check_float_exactness(case, ctx):
+    """'Finite floats read back with the same values': 3000 doubles of every magnitude (bit patterns derived from the
+    block number) are stored as the IEEE value they are - bit for bit, seen through an independent connection and
+    through the reader."""
+    import hashlib
+    import struct
+
+    from flow.record import RecordDescriptor
+    from flow.record.adapter.sqlite import SqliteReader, SqliteWriter
+
+    vals = []
+    i = 0
+    while len(vals) < 3000:
+        h = hashlib.sha256(b"c18-float-%d-%d" % (case["block"], i)).digest()
+        i += 1
+        for k in range(0, 32, 8):
+            x = struct.unpack(">d", h[k:k + 8])[0]
+            if x == x and x not in (float("inf"), float("-inf")) and x != 0.0:
+                vals.append(x)
+    ctx.nontriv()
+    ctx.count(len(vals))
+    desc = RecordDescriptor("c18/floats", [("float", "x"), ("varint", "i")])
+    tmp = ctx.fresh_dir()
+    try:
+        p = os.path.join(tmp, "f.db")
+        w = SqliteWriter(p, batch_size=case["batch"])
+        for k, x in enumerate(vals):
+            w.write(desc(x, k, _generated=GEN))
+        w.flush()
+        w.close()
+        con = sqlite3.connect(p)
+        try:
+            rows = con.execute('SELECT x, i, typeof(x) FROM "c18/floats" ORDER BY i').fetchall()
+        finally:
+            con.close()
+        if len(rows) != len(vals):
+            raise Violation("sqlite/float/rows", "%d floats written, %d rows" % (len(vals), len(rows)))
+        for (got, k, ty), x in zip(rows, vals):
+            if ty != "real" or struct.pack(">d", got) != struct.pack(">d", x):
+                raise Violation("sqlite/float/value", "float %r (%s) is stored as %r (%s, type %s)"
+                                % (x, x.hex(), got, got.hex() if isinstance(got, float) else "-", ty))
+        rd = SqliteReader(p)
+        try:
+            back = [float(r.x) for r in rd]
+        finally:
+            rd.con.close()
+        if [struct.pack(">d", b) for b in back] != [struct.pack(">d", x) for x in vals]:
+            k = next(k for k, (a, b) in enumerate(zip(back, vals)) if struct.pack(">d", a) != struct.pack(">d", b))
+            raise Violation("sqlite-reader/float/value", "float %r reads back as %r" % (vals[k], back[k]))
+    finally:
+        shutil.rmtree(tmp, ignore_errors=True)
+
+
 def parts(tier):
-    return [Part("histories", check, strategy=case_strategy(), examples=(300, 8000))]
+    return [Part("float-exactness", check_float_exactness, cases=float_cases, exhaustive=True),
+            Part("histories", check, strategy=case_strategy(), examples=(300, 8000))]
